@@ -22,7 +22,10 @@ ASSUMPTIONS = [
     "all TypedDict classes below one encoded type were constructed in one module (same_site); fresh and rewritten "
     "types: monkeytype.typing, decoded types: monkeytype.encoding",
 ]
-PARTIAL = []
+PARTIAL = ["that every type produced by the inference model satisfies `inferable` (unions in typing's normal form) is checked "
+           "per case by union_nfb/wf_tyb in the verdict (code 3 otherwise), not proved about Model/Infer.v",
+           "the decoder's behaviour on malformed dicts (which exception is raised) is tied by the decoder edge stream only; "
+           "no theorem is stated about it (C10 owns stale rows)"]
 
 SITE_FRESH = "monkeytype.typing"
 SITE_DECODED = "monkeytype.encoding"
